@@ -8,6 +8,9 @@ API
 Schema (JSON)      {"ents": [{"auto": bool, "attrs": [{"k": "int"|"str"|"ref"|"set", "req": bool, "uniq": bool, "tgt": int, "rev": int}]}]}
                    entity i is class `E<i>` with `id = PrimaryKey(int[, auto=True])` followed by attributes `a<j>` in list order.
                    Stage 1: ref = many-to-one (Required/Optional), set = its one-to-many reverse; tgt != own entity; defaults only.
+                   Stage 2 (gen_schema(rng, 2); implementation-side search only, the Coq model does not cover it): the kind of a
+                   relationship follows from the pair (attribute, reverse): set/set = many-to-many, ref/ref = one-to-one;
+                   an entity may carry "ckeys": [[i, j]] = composite_key(a<i>, a<j>).
 Op (JSON list)     ["new", e, pk|None, [[a, arg]...]]   E<e>(id=pk, a<a>=arg ...)           -> ["obj", h] | ["err", kind]
                    ["set", h, a, arg]                   obj.a<a> = arg (scalar / reference)
                    ["setmany", h, [[a, arg]...]]        obj.set(a..=arg..)
@@ -62,7 +65,7 @@ SCALARS = [('int', True, False), ('int', False, False), ('int', False, True), ('
 # ------------------------------------------------------------------------------------------------ schema
 
 def gen_schema(rng, stage=1):
-    n = rng.choice([1, 2, 2, 3, 3])
+    n = rng.choice([1, 2, 2, 3, 3]) if stage < 2 else rng.choice([2, 2, 3])
     ents = []
     for i in range(n):
         k = rng.choice([1, 1, 2, 2, 3])
@@ -73,11 +76,14 @@ def gen_schema(rng, stage=1):
         for _ in range(rng.choice([1, 1, 2, 2, 3])):
             c = rng.randrange(n); p = rng.choice([x for x in range(n) if x != c])
             rels.append((c, p, rng.random() < 0.4))
+    # stage 2 (implementation-side search only, not modelled in Coq): some relationships become many-to-many or one-to-one
+    kinds = [rng.choice(['m2o', 'm2m', 'm2m', 'o2o']) for _ in rels] if stage >= 2 else ['m2o'] * len(rels)
     # relationship attributes are appended, then each entity's attribute list is shuffled and the reverse indexes fixed up
     tags = [[('s', j) for j in range(len(e['attrs']))] for e in ents]
     for r, (c, p, req) in enumerate(rels):
-        ents[c]['attrs'].append(dict(k='ref', req=req, uniq=False, tgt=p, rev=None)); tags[c].append(('c', r))
-        ents[p]['attrs'].append(dict(k='set', req=False, uniq=False, tgt=c, rev=None)); tags[p].append(('p', r))
+        ck, creq, pk_ = {'m2o': ('ref', req, 'set'), 'm2m': ('set', False, 'set'), 'o2o': ('ref', req, 'ref')}[kinds[r]]
+        ents[c]['attrs'].append(dict(k=ck, req=creq, uniq=False, tgt=p, rev=None)); tags[c].append(('c', r))
+        ents[p]['attrs'].append(dict(k=pk_, req=False, uniq=False, tgt=c, rev=None)); tags[p].append(('p', r))
     for i in range(n):
         order = list(range(len(ents[i]['attrs']))); rng.shuffle(order)
         ents[i]['attrs'] = [ents[i]['attrs'][j] for j in order]
@@ -87,6 +93,11 @@ def gen_schema(rng, stage=1):
             t = tags[i][j]
             if t[0] == 'c': a['rev'] = tags[a['tgt']].index(('p', t[1]))
             elif t[0] == 'p': a['rev'] = tags[a['tgt']].index(('c', t[1]))
+    if stage >= 2:
+        # composite_key(a_i, a_j) over scalar attributes and many-to-one references (stage 2)
+        for i, e in enumerate(ents):
+            el = [j for j, a in enumerate(e['attrs']) if a['k'] in ('int', 'str') or (a['k'] == 'ref' and ents[a['tgt']]['attrs'][a['rev']]['k'] == 'set')]
+            if len(el) >= 2 and rng.random() < 0.45: e['ckeys'] = [sorted(rng.sample(el, 2))]
     return dict(ents=ents)
 
 
